@@ -1,6 +1,6 @@
 (* C12 property theorems. Nothing but statements closed by `exact lemma` and Print Assumptions. *)
 From Coq Require Import ZArith NArith List Bool.
-From OG Require Import C12.Model C12.Proofs C12.ProofsParse C12.Gen_Tokens C12.Inst.
+From OG Require Import C12.Model C12.Proofs C12.ProofsParse C12.ProofsSet C12.Gen_Tokens C12.Inst.
 Import ListNotations.
 Open Scope N_scope.
 
@@ -57,6 +57,11 @@ Theorem C12_quote_ident_roundtrip : forall kws s rest, wf_str s = true ->
   else bare_ok s = true /\ kw_lookup kws (lower s) = None.
 Proof. exact quote_ident_roundtrip. Qed.
 Print Assumptions C12_quote_ident_roundtrip.
+
+(* IN sets: members that are strings or numbers without a sign survive print -> parseSet (negative ones do not: Refuted.v) *)
+Theorem C12_set_roundtrip_nonneg : forall vs, forallb setval_nonneg vs = true -> parse_set (set_print_toks vs) = Some vs.
+Proof. exact set_roundtrip_nonneg. Qed.
+Print Assumptions C12_set_roundtrip_nonneg.
 
 (* non-vacuity: canonical expressions exist (64-bit limits, quotes, casts, calls, regexes, nested parentheses) *)
 Definition ex1 : expr :=
